@@ -121,6 +121,22 @@ def scenarios(g, rng):
         return [lambda d=d: attempt(d) for d in docs[:2]]
     out.append(Scenario("shared-invalid-schema", shared_invalid))
 
+    def shared_invalid_by_reference():
+        # ... and one whose ill-formed part sits behind a registry reference (the reference guard is per validation)
+        reset_process_state()
+        cerberus.rules_set_registry.add('C18_BAD_RULES', {'type': 'nosuchtype'})
+        cerberus.schema_registry.add('C18_BAD_SCHEMA', {'v': {'type': 'nosuchtype'}})
+        bad = {'f': {'type': 'dict', 'valuesrules': 'C18_BAD_RULES'}, 'g': {'type': 'dict', 'schema': 'C18_BAD_SCHEMA'}}
+
+        def attempt(d):
+            try:
+                v = pool.PoolValidator(bad)
+            except cerberus.SchemaError:
+                return "rejected"
+            return ("accepted",) + tuple(observe(v, d)[:1])
+        return [lambda d=d: attempt(d) for d in docs[:2]]
+    out.append(Scenario("shared-invalid-by-reference", shared_invalid_by_reference))
+
     def earlier_and_constructing():
         reset_process_state()
         shared = copy.deepcopy(canon)
@@ -212,11 +228,14 @@ def run(ctx):
         n = len(traces)
         hotter = [[j for j, w in enumerate(t) if isinstance(w, tuple) and w[0] == 'schema.py' and (37 <= w[1] <= 50 or 122 <= w[1] <= 320)]
                   for t in traces]
+        if sc.name.startswith("shared-invalid"):
+            # small scenarios: every line of schema.py is a preemption point (the reference guards, the cache inserts)
+            hotter = [[j for j, w in enumerate(t) if isinstance(w, tuple) and w[0] == 'schema.py' and w[1] >= 268] for t in traces]
         plans = []
         # systematic: one preemption right after a line that writes shared state, the other thread(s) then run to completion
         for t in range(n):
             lazy_pts = [j for j in hotter[t] if 37 <= traces[t][j][1] <= 50][:40]
-            pts = hotter[t] if thorough else sorted(set(rng.sample(hotter[t], min(len(hotter[t]), per)) + lazy_pts))
+            pts = hotter[t] if (thorough or sc.name.startswith("shared-invalid")) else sorted(set(rng.sample(hotter[t], min(len(hotter[t]), per)) + lazy_pts))
             if thorough and len(pts) > 1500:
                 pts = rng.sample(pts, 1500)
             for a in pts:
